@@ -71,6 +71,11 @@ CLAIMED = {
    text="Programs of the common subset (PHP 7-only syntax and uniform-variable-syntax regroupings excluded by family marks in the specification) are parsed under 5.x/7.x version pairs under several layouts; the full fingerprints (kinds, nesting, values, token texts/offsets, free-floating content, positions) must be equal; the deviating side is identified by comparison with the tree Syntax.tla prescribes.",
    note="Trusted: family marks in Syntax.tla. One known finding (PHP 5 goto label span).",
    design="5 (C10), 3.4"),
+ "C14": dict(
+   technique="TLA+ specification of PHP's name-resolution rules as a state machine over file statements (NsResolver.tla; TLC exhaustive over factorised matrices + simulation of long multi-section files); every behaviour rendered to PHP and replayed on the real resolver through the real traverser, final map compared exactly",
+   text="TLC enumerates every file of matrix A (rules: 3 reference kinds x 4 name forms x 7 names incl. case variants x <=1 import out of 120 (thorough: <=2) x 6 namespace forms; 68k files), matrix B (all 29 referencing sites incl. nullable/typed-property/arrow-function/multi-catch/trait adaptations x forms x imports; 99k files), matrix C (special names) and simulates long files with several namespace sections, group use and declarations. Each file is rendered, parsed and resolved by the real code; ResolvedNames must equal the specification's map: no missing, wrong or extra entry (keys = node start offsets). TLC also checks rule-level invariants (import independence of fq/relative names, case rule, namespace statement drops imports).",
+   note="Trusted: my reading of PHP's rules in NsResolver.tla; per-site rendering templates (vf/c14.py). Scalar type names are treated as special at every class-name site because the property says so (PHP itself only does that in type positions). Special names compared case-insensitively.",
+   design="5 (C14), 3.6"),
 }
 
 REASONS_PENDING = "check not built yet in this round; see DESIGN.md section 9 for the construction order"
